@@ -8,6 +8,7 @@ import (
 	"go/ast"
 	"go/token"
 	"go/types"
+	"os"
 	"sort"
 	"strings"
 
@@ -37,10 +38,12 @@ type State struct {
 	heaps  map[string]Term
 	dead   bool
 	ghosts map[string]Val
+	// specHeaps is set while the body of a spec function is evaluated: heap reads become parameters
+	specHeaps *[]heapParam
 }
 
 func (s *State) clone() *State {
-	n := &State{pc: s.pc, dead: s.dead, vars: make(map[types.Object]Val, len(s.vars)), heaps: make(map[string]Term, len(s.heaps)), ghosts: make(map[string]Val, len(s.ghosts))}
+	n := &State{pc: s.pc, dead: s.dead, specHeaps: s.specHeaps, vars: make(map[types.Object]Val, len(s.vars)), heaps: make(map[string]Term, len(s.heaps)), ghosts: make(map[string]Val, len(s.ghosts))}
 	for k, v := range s.vars {
 		n.vars[k] = v
 	}
@@ -130,6 +133,11 @@ type Exec struct {
 	binders  int
 	nameCount map[string]int
 	neutralMemo map[*types.Func]int
+	specs    map[string]*specInfo
+	pendingHeapNames map[string]bool
+	pendingPos token.Pos
+	heapSorts map[string]string
+	lastHeapNames map[string]bool // heaps written (only) through contracts with modifies lists, from the last assignedIn
 }
 
 func (e *Exec) fail(pos token.Pos, format string, a ...any) {
@@ -251,7 +259,10 @@ func (e *Exec) mergeVal(c Term, a, b Val, hint string) Val {
 	}
 	if a.Fn != nil || b.Fn != nil {
 		if a.Fn != b.Fn {
-			// closures differ by path: unsupported if later called
+			// closures differ by path: the merged value keeps its nil-ness but can only be called opaquely
+			if a.T.Sort == b.T.Sort {
+				return Val{T: Ite(c, a.T, b.T), GT: a.GT}
+			}
 			return Val{T: a.T, GT: a.GT}
 		}
 	}
@@ -393,6 +404,9 @@ func (e *Exec) mapHeap(m *types.Map) (string, string) {
 
 // heap reads after a havoc of "all heaps" must not see the initial heap for names first touched later.
 func (e *Exec) heapRead(st *State, name, sort string) Term {
+	if st.specHeaps != nil {
+		return e.specHeapRead(st, name, sort)
+	}
 	if h, ok := st.heaps[name]; ok {
 		return h
 	}
@@ -962,6 +976,9 @@ func (e *Exec) updatePath(st *State, base Val, path []int, v Val, pos token.Pos)
 
 // recordSliceWrite notes an in-place write into a backing array that may be shared with a parameter.
 func (e *Exec) recordSliceWrite(st *State, base Val, pos token.Pos) {
+	if os.Getenv("GOVC_DEBUG") != "" {
+		fmt.Fprintf(os.Stderr, "DEBUG slice write at %s orig=%v\n", e.posStr(pos), base.Orig)
+	}
 	for p := range base.Orig {
 		g := "written:" + p
 		cur, ok := st.ghosts[g]
@@ -981,6 +998,7 @@ type loopInfo struct {
 	invs     []*Clause
 	assigned map[types.Object]bool
 	heapW    bool
+	heapNames map[string]bool
 	pos      token.Pos
 }
 
@@ -1084,6 +1102,16 @@ func (e *Exec) assignedIn(nodes ...ast.Node) (map[types.Object]bool, bool) {
 					root(n.Value)
 				}
 			case *ast.CallExpr:
+				// a callee under contract with an explicit modifies list writes exactly those heaps
+				if names, ok := e.contractHeapNames(info, n); ok {
+					if e.lastHeapNames == nil {
+						e.lastHeapNames = map[string]bool{}
+					}
+					for k := range names {
+						e.lastHeapNames[k] = true
+					}
+					return true
+				}
 				// closure calls: include what the closure assigns
 				if id, ok := n.Fun.(*ast.Ident); ok {
 					if obj := info.Uses[id]; obj != nil {
@@ -1309,7 +1337,38 @@ func (e *Exec) havocVars(st *State, assigned map[types.Object]bool, heapW bool, 
 	}
 	if heapW {
 		e.havocHeaps(st, why)
+	} else if names := e.pendingHeapNames; len(names) > 0 {
+		// keys are "<heap>\x00<variable>": only the cell the variable refers to is havocked
+		resolve := e.loopEnv(st, e.pendingPos, nil).resolve
+		for _, key := range sortedKeys(names) {
+			parts := strings.SplitN(key, "\x00", 2)
+			k := parts[0]
+			srt := e.heapSorts[k]
+			if h, ok := st.heaps[k]; ok {
+				srt = h.Sort
+			}
+			if srt == "" {
+				continue
+			}
+			if len(parts) == 2 {
+				if v, ok := resolve(parts[1], st); ok && v.T.Sort == SInt {
+					cell := e.sc.Fresh("cell_"+parts[1], arrayValSort(srt))
+					st.heaps[k] = Store(e.heapRead(st, k, srt), v.T, cell)
+					continue
+				}
+			}
+			st.heaps[k] = e.sc.Fresh("heap_"+k, srt)
+		}
+		e.note("cells named in modifies lists havocked: " + why)
 	}
+	e.pendingHeapNames = nil
+}
+
+// takeHeapNames hands the heap names collected by the last assignedIn to the next havocVars.
+func (e *Exec) takeHeapNames() map[string]bool {
+	n := e.lastHeapNames
+	e.lastHeapNames = nil
+	return n
 }
 
 func (e *Exec) checkInvs(st *State, li *loopInfo, phase string, env func(*State) *cenv) {
@@ -1335,6 +1394,7 @@ func (e *Exec) forStmt(st *State, s *ast.ForStmt, label string) {
 	ord, _ := e.loopKeyFor(s, hdr)
 	li := &loopInfo{key: ord, invs: e.findInvs(ord, hdr), pos: s.Pos()}
 	li.assigned, li.heapW = e.assignedIn(s.Body, s.Post, s.Cond)
+	li.heapNames = e.takeHeapNames()
 	env := func(st *State) *cenv { return e.loopEnv(st, s.Pos(), nil) }
 	e.loopCore(st, li, label, env,
 		func(st *State) Term {
@@ -1361,7 +1421,13 @@ func (e *Exec) loopCore(st *State, li *loopInfo, label string, env func(*State) 
 		return
 	}
 	e.checkInvs(st, li, "init", env)
+	e.pendingHeapNames, e.pendingPos = li.heapNames, li.pos
 	e.havocVars(st, li.assigned, li.heapW, "loop at "+e.posStr(li.pos))
+	e.ghostEffects(st, func(s *State) {
+		b := e.fork(s, cond(s))
+		body(b)
+		e.setState(s, b)
+	})
 	e.assumeInvs(st, li, env)
 	c := cond(st)
 	bodySt := e.fork(st, c)
@@ -1418,6 +1484,7 @@ func (e *Exec) rangeStmt(st *State, s *ast.RangeStmt, label string) {
 	ord, _ := e.loopKeyFor(s, hdr)
 	li := &loopInfo{key: ord, invs: e.findInvs(ord, hdr), pos: s.Pos()}
 	li.assigned, li.heapW = e.assignedIn(s.Body)
+	li.heapNames = e.takeHeapNames()
 	xv := e.ev(st, s.X)
 	idx := e.synthVar("idx", types.Typ[types.Int])
 	st.vars[idx] = Val{T: IntLit(0), GT: types.Typ[types.Int]}
@@ -1527,7 +1594,20 @@ func (e *Exec) rangeStmt(st *State, s *ast.RangeStmt, label string) {
 		return And(Le(IntLit(0), i), Le(i, n))
 	}
 	e.checkInvs(st, li, "init", env)
+	e.pendingHeapNames, e.pendingPos = li.heapNames, li.pos
 	e.havocVars(st, li.assigned, li.heapW, "loop at "+e.posStr(li.pos))
+	e.ghostEffects(st, func(s0 *State) {
+		b := e.fork(s0, Lt(s0.vars[idx].T, n))
+		k, v := elemAt(b, b.vars[idx].T)
+		if keyObj != nil {
+			b.vars[keyObj] = Val{T: k.T, GT: keyObj.Type()}
+		}
+		if valObj != nil {
+			b.vars[valObj] = Val{T: v.T, GT: valObj.Type()}
+		}
+		e.stmt(b, s.Body)
+		e.setState(s0, b)
+	})
 	e.assume(st, bound(st))
 	e.assumeInvs(st, li, env)
 	c := Lt(st.vars[idx].T, n)
@@ -1569,8 +1649,10 @@ func (e *Exec) rangeFunc(st *State, s *ast.RangeStmt, xv Val, label string) {
 	ord := fmt.Sprintf("loop#%d", e.top().loopN)
 	li := &loopInfo{key: ord, invs: e.findInvs(ord, hdr), pos: s.Pos()}
 	li.assigned, li.heapW = e.assignedIn(s.Body)
+	li.heapNames = e.takeHeapNames()
 	env := func(st *State) *cenv { return e.loopEnv(st, s.Body.Pos(), nil) }
 	e.checkInvs(st, li, "init", env)
+	e.pendingHeapNames, e.pendingPos = li.heapNames, li.pos
 	e.havocVars(st, li.assigned, li.heapW, "loop at "+e.posStr(li.pos))
 	e.assumeInvs(st, li, env)
 	more := e.sc.Fresh("itermore", SBool)
